@@ -8,36 +8,37 @@ namespace c13 {
 using namespace gv;
 
 struct Ctor { std::string name; int np; std::function<void(const double*)> make; };
+inline bool& built() { static bool b = false; return b; }
 inline std::vector<Ctor>& ctors() { static std::vector<Ctor> c; return c; }
 inline void reg_ctors() {
   if (!ctors().empty()) return;
   auto C = [](const char* n, int np, std::function<void(const double*)> f) { ctors().push_back(Ctor{n, np, f}); };
   double t[12];
   (void)t;
-  C("Geodesic", 2, [](const double* p) { Geodesic g(p[0], p[1]); double a, b, c; g.Direct(40, 10, 30, 1e6 * p[0] / Wa, a, b, c); g.Inverse(40, 10, 20, 50, a, b, c); });
-  C("GeodesicX", 2, [](const double* p) { Geodesic g(p[0], p[1], true); double a, b, c; g.Direct(40, 10, 30, 1e6 * p[0] / Wa, a, b, c); });
-  C("GeodesicExact", 2, [](const double* p) { GeodesicExact g(p[0], p[1]); double a, b, c; g.Direct(40, 10, 30, 1e6 * p[0] / Wa, a, b, c); g.Inverse(40, 10, 20, 50, a, b, c); });
-  C("Rhumb", 2, [](const double* p) { Rhumb g(p[0], p[1]); double a, b, c; g.Direct(40, 10, 30, 1e6 * p[0] / Wa, a, b, c); g.Inverse(40, 10, 20, 50, a, b, c); });
-  C("Ellipsoid", 2, [](const double* p) { Ellipsoid e(p[0], p[1]); (void)e.MeridianDistance(40); (void)e.AuthalicLatitude(40); (void)e.Area(); });
-  C("AuxLatitude", 2, [](const double* p) { AuxLatitude e(p[0], p[1]); (void)e.Convert(AuxLatitude::PHI, AuxLatitude::XI, 40.0, false); (void)e.Convert(AuxLatitude::MU, AuxLatitude::CHI, 40.0, true); });
-  C("AuxLatitudeAxes", 2, [](const double* p) { AuxLatitude e(std::pair<double, double>(p[0], p[1])); (void)e.Convert(AuxLatitude::PHI, AuxLatitude::XI, 40.0, false); });
-  C("Geocentric", 2, [](const double* p) { Geocentric g(p[0], p[1]); double a, b, c; g.Forward(40, 10, 100, a, b, c); g.Reverse(0.6 * p[0], 0.1 * p[0], 0.7 * p[0], a, b, c); });
-  C("TransverseMercator", 3, [](const double* p) { TransverseMercator g(p[0], p[1], p[2]); double a, b, c, d; g.Forward(3, 40, 5, a, b, c, d); g.Reverse(3, 0.01 * p[0], 0.3 * p[0], a, b, c, d); });
-  C("TransverseMercatorX", 3, [](const double* p) { TransverseMercator g(p[0], p[1], p[2], true); double a, b, c, d; g.Forward(3, 40, 5, a, b, c, d); g.Reverse(3, 0.01 * p[0], 0.3 * p[0], a, b, c, d); });
-  C("TransverseMercatorExact", 3, [](const double* p) { TransverseMercatorExact g(p[0], p[1], p[2]); double a, b, c, d; g.Forward(3, 40, 5, a, b, c, d); g.Reverse(3, 0.01 * p[0], 0.3 * p[0], a, b, c, d); });
-  C("PolarStereographic", 3, [](const double* p) { PolarStereographic g(p[0], p[1], p[2]); double a, b, c, d; g.Forward(true, 80, 5, a, b, c, d); g.Reverse(true, 0.01 * p[0], 0.02 * p[0], a, b, c, d); });
-  C("PolarStereographic.SetScale", 2, [](const double* p) { PolarStereographic g(Wa, Wf, 1.0); g.SetScale(p[0], p[1]); });
-  C("LambertConformalConic1", 4, [](const double* p) { LambertConformalConic g(p[0], p[1], p[2], p[3]); double a, b, c, d; g.Forward(3, 40, 5, a, b, c, d); g.Reverse(3, 0.01 * p[0], 0.02 * p[0], a, b, c, d); });
-  C("LambertConformalConic2", 5, [](const double* p) { LambertConformalConic g(p[0], p[1], p[2], p[3], p[4]); double a, b, c, d; g.Forward(3, 40, 5, a, b, c, d); g.Reverse(3, 0.01 * p[0], 0.02 * p[0], a, b, c, d); });
-  C("LambertConformalConic4", 7, [](const double* p) { LambertConformalConic g(p[0], p[1], p[2], p[3], p[4], p[5], p[6]); double a, b, c, d; g.Forward(3, 40, 5, a, b, c, d); g.Reverse(3, 0.01 * p[0], 0.02 * p[0], a, b, c, d); });
-  C("LambertConformalConic.SetScale", 2, [](const double* p) { LambertConformalConic g(Wa, Wf, 30.0, 50.0, 1.0); g.SetScale(p[0], p[1]); });
-  C("AlbersEqualArea1", 4, [](const double* p) { AlbersEqualArea g(p[0], p[1], p[2], p[3]); double a, b, c, d; g.Forward(3, 40, 5, a, b, c, d); g.Reverse(3, 0.01 * p[0], 0.02 * p[0], a, b, c, d); });
-  C("AlbersEqualArea2", 5, [](const double* p) { AlbersEqualArea g(p[0], p[1], p[2], p[3], p[4]); double a, b, c, d; g.Forward(3, 40, 5, a, b, c, d); g.Reverse(3, 0.01 * p[0], 0.02 * p[0], a, b, c, d); });
-  C("AlbersEqualArea4", 7, [](const double* p) { AlbersEqualArea g(p[0], p[1], p[2], p[3], p[4], p[5], p[6]); double a, b, c, d; g.Forward(3, 40, 5, a, b, c, d); g.Reverse(3, 0.01 * p[0], 0.02 * p[0], a, b, c, d); });
-  C("AlbersEqualArea.SetScale", 2, [](const double* p) { AlbersEqualArea g(Wa, Wf, 30.0, 50.0, 1.0); g.SetScale(p[0], p[1]); });
-  C("NormalGravity", 4, [](const double* p) { NormalGravity g(p[0], p[1], p[2], p[3], true); double a, b; (void)g.Gravity(40, 100, a, b); (void)g.SurfaceGravity(40); });
-  C("EllipticFunction2", 2, [](const double* p) { EllipticFunction e(p[0], p[1]); (void)e.F(0.7); (void)e.E(0.7); (void)e.Pi(0.7); });
-  C("EllipticFunction4", 4, [](const double* p) { EllipticFunction e(p[0], p[1], p[2], p[3]); (void)e.F(0.7); (void)e.E(0.7); });
+  C("Geodesic", 2, [](const double* p) { Geodesic g(p[0], p[1]); built() = true; double a, b, c; g.Direct(40, 10, 30, 1e6 * p[0] / Wa, a, b, c); g.Inverse(40, 10, 20, 50, a, b, c); });
+  C("GeodesicX", 2, [](const double* p) { Geodesic g(p[0], p[1], true); built() = true; double a, b, c; g.Direct(40, 10, 30, 1e6 * p[0] / Wa, a, b, c); });
+  C("GeodesicExact", 2, [](const double* p) { GeodesicExact g(p[0], p[1]); built() = true; double a, b, c; g.Direct(40, 10, 30, 1e6 * p[0] / Wa, a, b, c); g.Inverse(40, 10, 20, 50, a, b, c); });
+  C("Rhumb", 2, [](const double* p) { Rhumb g(p[0], p[1]); built() = true; double a, b, c; g.Direct(40, 10, 30, 1e6 * p[0] / Wa, a, b, c); g.Inverse(40, 10, 20, 50, a, b, c); });
+  C("Ellipsoid", 2, [](const double* p) { Ellipsoid e(p[0], p[1]); built() = true; (void)e.MeridianDistance(40); (void)e.AuthalicLatitude(40); (void)e.Area(); });
+  C("AuxLatitude", 2, [](const double* p) { AuxLatitude e(p[0], p[1]); built() = true; (void)e.Convert(AuxLatitude::PHI, AuxLatitude::XI, 40.0, false); (void)e.Convert(AuxLatitude::MU, AuxLatitude::CHI, 40.0, true); });
+  C("AuxLatitudeAxes", 2, [](const double* p) { AuxLatitude e(std::pair<double, double>(p[0], p[1])); built() = true; (void)e.Convert(AuxLatitude::PHI, AuxLatitude::XI, 40.0, false); });
+  C("Geocentric", 2, [](const double* p) { Geocentric g(p[0], p[1]); built() = true; double a, b, c; g.Forward(40, 10, 100, a, b, c); g.Reverse(0.6 * p[0], 0.1 * p[0], 0.7 * p[0], a, b, c); });
+  C("TransverseMercator", 3, [](const double* p) { TransverseMercator g(p[0], p[1], p[2]); built() = true; double a, b, c, d; g.Forward(3, 40, 5, a, b, c, d); g.Reverse(3, 0.01 * p[0], 0.3 * p[0], a, b, c, d); });
+  C("TransverseMercatorX", 3, [](const double* p) { TransverseMercator g(p[0], p[1], p[2], true); built() = true; double a, b, c, d; g.Forward(3, 40, 5, a, b, c, d); g.Reverse(3, 0.01 * p[0], 0.3 * p[0], a, b, c, d); });
+  C("TransverseMercatorExact", 3, [](const double* p) { TransverseMercatorExact g(p[0], p[1], p[2]); built() = true; double a, b, c, d; g.Forward(3, 40, 5, a, b, c, d); g.Reverse(3, 0.01 * p[0], 0.3 * p[0], a, b, c, d); });
+  C("PolarStereographic", 3, [](const double* p) { PolarStereographic g(p[0], p[1], p[2]); built() = true; double a, b, c, d; g.Forward(true, 80, 5, a, b, c, d); g.Reverse(true, 0.01 * p[0], 0.02 * p[0], a, b, c, d); });
+  C("PolarStereographic.SetScale", 2, [](const double* p) { PolarStereographic g(Wa, Wf, 1.0); g.SetScale(p[0], p[1]);  built() = true; });
+  C("LambertConformalConic1", 4, [](const double* p) { LambertConformalConic g(p[0], p[1], p[2], p[3]); built() = true; double a, b, c, d; g.Forward(3, 40, 5, a, b, c, d); g.Reverse(3, 0.01 * p[0], 0.02 * p[0], a, b, c, d); });
+  C("LambertConformalConic2", 5, [](const double* p) { LambertConformalConic g(p[0], p[1], p[2], p[3], p[4]); built() = true; double a, b, c, d; g.Forward(3, 40, 5, a, b, c, d); g.Reverse(3, 0.01 * p[0], 0.02 * p[0], a, b, c, d); });
+  C("LambertConformalConic4", 7, [](const double* p) { LambertConformalConic g(p[0], p[1], p[2], p[3], p[4], p[5], p[6]); built() = true; double a, b, c, d; g.Forward(3, 40, 5, a, b, c, d); g.Reverse(3, 0.01 * p[0], 0.02 * p[0], a, b, c, d); });
+  C("LambertConformalConic.SetScale", 2, [](const double* p) { LambertConformalConic g(Wa, Wf, 30.0, 50.0, 1.0); g.SetScale(p[0], p[1]);  built() = true; });
+  C("AlbersEqualArea1", 4, [](const double* p) { AlbersEqualArea g(p[0], p[1], p[2], p[3]); built() = true; double a, b, c, d; g.Forward(3, 40, 5, a, b, c, d); g.Reverse(3, 0.01 * p[0], 0.02 * p[0], a, b, c, d); });
+  C("AlbersEqualArea2", 5, [](const double* p) { AlbersEqualArea g(p[0], p[1], p[2], p[3], p[4]); built() = true; double a, b, c, d; g.Forward(3, 40, 5, a, b, c, d); g.Reverse(3, 0.01 * p[0], 0.02 * p[0], a, b, c, d); });
+  C("AlbersEqualArea4", 7, [](const double* p) { AlbersEqualArea g(p[0], p[1], p[2], p[3], p[4], p[5], p[6]); built() = true; double a, b, c, d; g.Forward(3, 40, 5, a, b, c, d); g.Reverse(3, 0.01 * p[0], 0.02 * p[0], a, b, c, d); });
+  C("AlbersEqualArea.SetScale", 2, [](const double* p) { AlbersEqualArea g(Wa, Wf, 30.0, 50.0, 1.0); g.SetScale(p[0], p[1]);  built() = true; });
+  C("NormalGravity", 4, [](const double* p) { NormalGravity g(p[0], p[1], p[2], p[3], true); built() = true; double a, b; (void)g.Gravity(40, 100, a, b); (void)g.SurfaceGravity(40); });
+  C("EllipticFunction2", 2, [](const double* p) { EllipticFunction e(p[0], p[1]); built() = true; (void)e.F(0.7); (void)e.E(0.7); (void)e.Pi(0.7); });
+  C("EllipticFunction4", 4, [](const double* p) { EllipticFunction e(p[0], p[1], p[2], p[3]); built() = true; (void)e.F(0.7); (void)e.E(0.7); });
 }
 
 inline std::map<std::string, int>& ctor_hangs() { static std::map<std::string, int> h; return h; }
@@ -48,13 +49,26 @@ static Reg r_ctor("c13_ctor", [](const Args& a) {
   std::vector<double> p; for (int i = 0; i < c->np; ++i) p.push_back(unhx(a[1 + i]));
   alarm(120);
   std::string e;
+  built() = false;
   bool done = with_timeout(3.0, [&] { e = guarded([&] { c->make(p.data()); }); });
   alarm(0);
+  bool ext = false; for (double v : p) if (!std::isnan(v) && !(std::fabs(v) <= 1e100)) ext = true;
+  bool far = false; for (double v : p) if (std::isfinite(v) && v != 0 && (std::fabs(v) > 1e12 || std::fabs(v) < 1e-12)) far = true;
   if (!done) {
     emit("!hang");
-    std::string ps; bool ext = false; for (double v : p) { char b[40]; std::snprintf(b, sizeof b, " %.17g", v); ps += b; if (!std::isnan(v) && !(std::fabs(v) < 1e100)) ext = true; }
+    std::string ps; for (double v : p) { char b[40]; std::snprintf(b, sizeof b, " %.17g", v); ps += b; }
     bad("hang", a[0] + " constructor (or the first use of the object) did not return within 3 s of CPU time; parameters" + ps + (ext ? " [extreme]" : ""));
     ++ctor_hangs()[a[0]];
+    return;
+  }
+  // accept / reject is decided by the constructor (or validator) alone; an exception of the *first use* of an accepted object is
+  // judged separately: the library's exception from an object with parameters of ordinary magnitude is a failing input, at
+  // absurd magnitudes (|p| > 1e12 or < 1e-12, e.g. b/a = 1e16) it is only counted
+  if (built() && !e.empty()) {
+    emit("1");
+    if (e != "!E" && e != "!A") bad("foreign-exception", a[0] + ": first use of an accepted object threw " + e);
+    else if (e == "!E" && !far) bad("first-use-throws", a[0] + ": an object accepted by the constructor threw GeographicErr on its first ordinary call");
+    else stat("first_use_throws_at_absurd_parameters");
     return;
   }
   emit(e.empty() ? "1" : e == "!E" ? "0" : e);
